@@ -571,6 +571,8 @@ func (st *Runtime) executeList(list *ListNode) (returnValue reflect.Value) {
 func (st *Runtime) executeTry(try *TryNode) (returnValue reflect.Value) {
 	writer := st.Writer
 	buf := new(bytes.Buffer)
+	// range, if and yield restore these only on their normal exit, which a panic in the body skips
+	scope, context, content := st.scope, st.context, st.content
 
 	defer func() {
 		r := recover()
@@ -580,6 +582,7 @@ func (st *Runtime) executeTry(try *TryNode) (returnValue reflect.Value) {
 			io.Copy(writer, buf)
 		} else {
 			// st.Writer is already set to its original value since the later defer ran first
+			st.scope, st.context, st.content = scope, context, content
 			if try.Catch != nil {
 				if try.Catch.Err != nil {
 					st.newScope()
